@@ -335,3 +335,17 @@ Fixpoint pie_visit (fuel : nat) (e : pie) : option (list nat) :=
         match pie_visit fuel' (pie_advance e) with Some r => Some (pie_get e :: r) | None => None end
       else Some []
   end.
+
+(* src: Core.cpp:toFactors(const Factors & space, size_t id, Factors * out) — the out-parameter
+   overload: every one of the first |space| entries of the (possibly reused) buffer is overwritten;
+   entries of a longer buffer beyond |space| are left alone; a shorter buffer is an unchecked write
+   (the model stops there). *)
+Fixpoint toFactorsOut (space : list nat) (id : nat) (out : list nat) : list nat :=
+  match space with
+  | [] => out
+  | sp :: space' =>
+      match out with
+      | [] => []
+      | _ :: out' => (id mod sp) :: toFactorsOut space' (id / sp) out'
+      end
+  end.
